@@ -108,10 +108,12 @@ def run_assign(el, w, unchecked, tier):
     res = []
     ops = {None: None, 'Add': ast.Add, 'Sub': ast.Sub, 'Mul': ast.Mul, 'Div': ast.Div, 'Mod': ast.Mod}
     for where in ('local', 'glob'):
-        for ish in ('opaque', 'literal', 'local'):
+        # index shapes include a mutable global: the right-hand side may change it, the element addressed must be the one
+        # the index denoted when it was evaluated (before the right-hand side)
+        for ish in ('opaque', 'literal', 'local', 'glob'):
             for rsh in RHS[el]:
                 for opn, op in ops.items():
-                    if op is not None and (el == B or (tier == 'quick' and (ish != 'opaque' or rsh == 'local'))):
+                    if op is not None and (el == B or (tier == 'quick' and (ish not in ('opaque', 'glob') or rsh == 'local'))):
                         continue
                     L = Lemma(f'array/assign/{el}/{where}/idx={ish}/rhs={rsh}/op={opn}/w{w}/{"unchecked" if unchecked else "checked"}', w, unchecked)
                     L.functions.update(GEN)
